@@ -47,6 +47,7 @@ func BufEnv(home string, extra map[string]string) map[string]string {
 // Buf runs a buf command in-process (the exact command tree of cmd/buf) with cwd = dir.
 // Workers run one case at a time, so changing the process cwd is safe.
 func Buf(dir string, env map[string]string, stdin io.Reader, args ...string) Out {
+	args = NoDeadline(args)
 	if dir != "" {
 		old, _ := os.Getwd()
 		// buf caches the working directory process-wide (osext.Getwd); osext.Chdir clears the cache
@@ -69,6 +70,7 @@ func Buf(dir string, env map[string]string, stdin io.Reader, args ...string) Out
 
 // BufExec runs the freshly built buf binary as a subprocess.
 func BufExec(bin, dir string, env map[string]string, stdin io.Reader, timeout time.Duration, args ...string) Out {
+	args = NoDeadline(args)
 	ctx, cancel := context.WithTimeout(context.Background(), timeout)
 	defer cancel()
 	cmd := exec.CommandContext(ctx, bin, args...)
@@ -175,4 +177,18 @@ func CleanDir(dir string) {
 	for _, e := range entries {
 		os.RemoveAll(filepath.Join(dir, e.Name()))
 	}
+}
+
+// NoDeadline appends --timeout=0 unless the caller chose a timeout: buf's default deadline of two minutes is a
+// wall-clock verdict that a loaded machine can trip (every command of the CLI carries the global flag).
+func NoDeadline(args []string) []string {
+	if len(args) == 0 || strings.HasPrefix(args[0], "-") || args[0] == "help" || args[0] == "completion" {
+		return args
+	}
+	for _, a := range args {
+		if a == "--" || a == "--timeout" || strings.HasPrefix(a, "--timeout=") {
+			return args
+		}
+	}
+	return append(append([]string{}, args...), "--timeout=0")
 }
